@@ -222,8 +222,9 @@ def scaleFactorMissingRep (o : Obs α) (newIdl : List (String × Idl)) (ens : St
   -- obs.mc_names: ensembles of obs.names that are not covariance names
   if !(o.mcNames.contains ens) then 1 else
   let pre := ens ++ "|"
-  let own := (o.names.filter (pre.isPrefixOf ·))
-  let new := (newIdl.filter (fun p => pre.isPrefixOf p.1))
+  -- a chain called exactly like its ensemble (no '|') is a replica of it as well (as in `e_content`)
+  let own := (o.names.filter (fun m => pre.isPrefixOf m || m == ens))
+  let new := (newIdl.filter (fun p => pre.isPrefixOf p.1 || p.1 == ens))
   if own.length > 0 && own.length < new.length then
     let tot := (new.map (fun p => p.2.len)).foldr (· + ·) 0
     let ownTot := ((newIdl.filter (fun p => own.contains p.1)).map (fun p => p.2.len)).foldr (· + ·) 0
